@@ -1,5 +1,6 @@
 From Coq Require Import Reals List ZArith Lra Lia.
-From TFV Require Import Base.RBase Shape.LineShapes.
+From Interval Require Import Tactic.
+From TFV Require Import Base.RBase Base.Tie Shape.LineShapes.
 Import ListNotations.
 Open Scope R_scope.
 
@@ -179,3 +180,44 @@ Proof.
   assert (E2 : sign * (0 + (p * (g * (m0 / m)) + 0 * 0)) = im) by (unfold im; ring).
   rewrite E1, E2. reflexivity.
 Qed.
+
+(* ---- BWR_LS: the partial-width fractions are normalised, for ANY number of couplings ---- *)
+Lemma gamma_factors_from_sumsq f thetas : sumsq (gamma_factors_from f thetas) = f * f.
+Proof.
+  revert f. induction thetas as [|t rest IH]; intros f; simpl.
+  - ring.
+  - rewrite IH. pose proof (sin2_cos2 t) as H. unfold Rsqr in H.
+    replace (f * cos t * (f * cos t) + f * sin t * (f * sin t)) with (f * f * (sin t * sin t + cos t * cos t)) by ring.
+    rewrite H. ring.
+Qed.
+Theorem gamma_factors_normalised thetas : sumsq (gamma_factors thetas) = 1.
+Proof. unfold gamma_factors. rewrite gamma_factors_from_sumsq. ring. Qed.
+Lemma gamma_factors_length thetas : length (gamma_factors thetas) = S (length thetas).
+Proof.
+  unfold gamma_factors. generalize 1. induction thetas as [|t rest IH]; intros f; simpl; [reflexivity|].
+  rewrite IH. reflexivity.
+Qed.
+
+(* numeric line shape x denominator = partial-width factor: the symbolic denominator is the reciprocal *)
+Lemma Cinv_mul z : fst z * fst z + snd z * snd z <> 0 -> Cmul (Cinv z) z = (1, 0).
+Proof. intros H. destruct z as [x y]. unfold Cmul, Cinv; simpl in *. f_equal; field; exact H. Qed.
+Theorem bwr_ls_dom_reciprocal doc m m0 g0 q2 q02 ls thetas d i :
+  let den := BWR_LS_den doc m m0 g0 q2 q02 ls thetas d in
+  fst den * fst den + snd den * snd den <> 0 ->
+  Cmul (BWR_LS doc m m0 g0 q2 q02 ls thetas d i) den = (nth i (ls_widths ls thetas q2 q02 d) 0, 0).
+Proof.
+  intros den H. unfold BWR_LS. fold den.
+  pose proof (Cinv_mul den H) as E. destruct (Cinv den) as [u v], den as [x y].
+  unfold Cmul, Cscal in *; cbn [fst snd] in *.
+  assert (E1 : u * x - v * y = 1) by (apply (f_equal fst) in E; exact E).
+  assert (E2 : u * y + v * x = 0) by (apply (f_equal snd) in E; exact E).
+  set (w := nth i (ls_widths ls thetas q2 q02 d) 0).
+  f_equal.
+  - replace (w * u * x - w * v * y) with (w * (u * x - v * y)) by ring. rewrite E1. ring.
+  - replace (w * u * y + w * v * x) with (w * (u * y + v * x)) by ring. rewrite E2. ring.
+Qed.
+
+(* the documented width factor and the code's default differ away from the pole *)
+Lemma bwr_ls_default_differs_from_doc :
+  snd (BWR_LS_den false 2 1 1 1 1 [0%nat] [] 3) < snd (BWR_LS_den true 2 1 1 1 1 [0%nat] [] 3).
+Proof. rcompute. rclose. Qed.
